@@ -370,6 +370,7 @@ func checkC30(c evoCase) pbt.Result {
 	if what == "" {
 		return pbt.Result{Classes: []string{"no-candidate-" + e.Kind}}
 	}
+	pinTags(c.Old, newS) // so that a rejection is due to the edit, not to the tag an edit changes implicitly
 	oldS := clone(c.Old)
 	if c.Order%3 != 0 { // the linter walks declarations in file order: exercise other orders too
 		shuffleDecls(oldS, c.Order)
